@@ -1,12 +1,12 @@
 """C20 cron: jobs run exactly at the minutes their spec denotes."""
 
-IMPORTS = "From Ergo Require Import Common.Base Cron.Model Cron.Spec Cron.Cases.\nLocal Open Scope Z_scope."
+IMPORTS = "From Ergo Require Import Common.Base Cron.Model Cron.Spec Cron.Grammar Cron.TickSpec Cron.Cases.\nLocal Open Scope Z_scope."
 
 PARTS = [
     # sub-command, case type, corr checkers, spec checkers, premise checkers, quick n, thorough n
-    ("parse", "pcase", ["corr_parse", "corr_lex", "corr_civil", "corr_run"], ["spec_parse_run"], ["premise_parse_run"], 1200, 20000),
+    ("parse", "pcase", ["corr_parse", "corr_lex", "corr_print", "corr_civil", "corr_run"], ["spec_parse_run"], ["premise_parse_run"], 1200, 20000),
     ("sched", "scase", ["corr_sched"], ["spec_sched"], ["premise_sched"], 80, 1200),
-    ("tick", "tcase", ["corr_tick"], ["spec_tick"], ["premise_tick"], 300, 4000),
+    ("tick", "tcase", ["corr_tick", "corr_tick_ast"], ["spec_tick"], ["premise_tick"], 300, 4000),
 ]
 
 
@@ -40,4 +40,7 @@ def run(c):
         "minute tick: the timer function is a closure and is not driven; its decisions (pop the spool, skip disabled entries, "
         "schedule(next minute)) are modelled and tied through the export (Drain = the pop loop, Schedule = cron.schedule); "
         "a punctual timer and a wall clock that stays within the minute during the tick are assumed",
+        "C20_tick / C20_grammar are theorems about the Coq model (Model.step, Model.parse_spec); model = code is the differential "
+        "check of every run (corr_parse, corr_lex, corr_print, corr_tick, corr_tick_ast). C20_tick speaks about sequential histories: "
+        "API calls racing the pop loop of a tick are not modelled",
     ]
